@@ -91,8 +91,17 @@ package git
 //@   ensures result1 == nil ==> result0 != nil
 //@   ensures result1 == nil ==> wide(result0.Size) == min(wide(len(data)), 4294967295)
 
+// C05, "quantities that pass through a narrower counter on their way into a
+// wider one": the object size announced by git enters the 64-bit totals
+// (unique blob/tree/commit size, checkout size) through this 32-bit field, so
+// it must be represented exactly. It is not for objects of 4 GiB or more: a
+// recorded finding (known_findings.jsonl, region size > 2^32-1); below that
+// the clause is proved.
 //@ func ParseBatchHeader
 //@   pure
+//@   call 0 strconv.ParseUint as sz
+//@   ensures @exact-size result1 == nil ==> uint64(result0.ObjectSize) == sz0
+//@   ensures result1 == nil ==> wide(result0.ObjectSize) == min(wide(sz0), 4294967295)
 
 //@ func ParseReference
 //@   pure
@@ -279,3 +288,11 @@ package git
 //@   trust A-STD-CONV
 //@   pure
 //@   ensures keyof(result) == oidHexK(oid) && len(result) == 40
+
+// The reader of `git cat-file --batch` output allocates size+1 bytes; the +1
+// is a raw Count32 addition (overflow sweep, C05) that wraps for a saturated
+// size: recorded finding (same root cause as exact-size above).
+//@ func (*Repository).NewBatchObjectIter$2
+//@   modifies everything
+
+//@ property C05: ParseBatchHeader (*Repository).NewBatchObjectIter$2
